@@ -54,6 +54,16 @@ pub fn claim_of(p: &Params) -> Option<&'static str> {
     }
 }
 
+/// Parameter `noclaim=1` runs a family that normally attributes everything to the property it
+/// was written for with the monitor's native attribution instead (so that another property's
+/// check can reuse the family and still report only what belongs to it).
+pub fn unclaim(p: &Params, mut prog: Program) -> Program {
+    if p.get("noclaim", 0) != 0 {
+        prog.claim = None;
+    }
+    prog
+}
+
 pub struct Program {
     /// classes of yield points that are scheduling points in the concurrent phase
     pub classes: u8,
